@@ -802,3 +802,57 @@ Proof.
   destruct (trun_done_unique _ _ _ _ _ _ _ _ _ _ _ _ _ _ T Tm) as [R1 [R2 R3]]. subst.
   repeat split; congruence.
 Qed.
+
+(** ** isolation under interleaving: completed concurrent requests, started in any reachable state *)
+Definition pool_of (ops : list op) : pool := map (fun o => (op_cid o, start_of o)) ops.
+
+Lemma p_get_pool_of ops : NoDup (map op_cid ops) -> forall o, In o ops ->
+  p_get (pool_of ops) (op_cid o) = Some (start_of o).
+Proof.
+  induction ops as [|o0 r IH]; intros ND o Hin; [contradiction|]. simpl in ND. inversion ND as [|? ? Hni ND']; subst.
+  simpl. destruct Hin as [<-|Hin].
+  - rewrite str_eqb_refl. reflexivity.
+  - rewrite str_eqb_neq; [apply IH; assumption|]. intros E. apply Hni. rewrite E. apply in_map. assumption.
+Qed.
+Lemma p_get_pool_inv ops c ts : p_get (pool_of ops) c = Some ts -> exists o, In o ops /\ op_cid o = c.
+Proof.
+  induction ops as [|o0 r IH]; simpl; [discriminate|].
+  destruct (str_eqb_spec (op_cid o0) c) as [E|N]; intros H.
+  - exists o0. split; [left; reflexivity|assumption].
+  - destruct (IH H) as (o & A & B). exists o. split; [right; assumption|assumption].
+Qed.
+
+Lemma prun_log_cids cf rq sched : forall p st p' st' log,
+  prun cur_flags cf rq sched p st = (p', st', log) ->
+  forall e, In e log -> exists ts, p_get p (e_cid e) = Some ts.
+Proof.
+  induction sched as [|c0 sched IH]; intros p st p' st' log H e He.
+  - simpl in H. inversion H; subst. contradiction.
+  - cbn [prun] in H. destruct (p_get p c0) as [ts0|] eqn:G0; [|apply (IH _ _ _ _ _ H e He)].
+    destruct (mstep cur_flags cf rq c0 ts0 st) as [[ts0' st0'] es0] eqn:M.
+    destruct (prun cur_flags cf rq sched (p_set p c0 ts0') st0') as [[p2 st2] es2] eqn:P.
+    inversion H; subst; clear H. destruct (mstep_local _ _ _ _ _ _ _ _ M) as [_ [_ L3]].
+    apply in_app_or in He. destruct He as [He|He].
+    + rewrite (L3 _ He). exists ts0. assumption.
+    + destruct (IH _ _ _ _ _ P e He) as [ts Hts].
+      destruct (list_eq_dec ascii_dec (e_cid e) c0) as [->|N]; [exists ts0; assumption|].
+      rewrite p_get_set_ne in Hts by assumption. exists ts. assumption.
+Qed.
+
+Lemma isolation_concurrent_l cf rq h st outs ops sched p' st' log :
+  run cur_flags cf rq init h = (st, outs) ->
+  NoDup (map op_cid ops) ->
+  prun cur_flags cf rq sched (pool_of ops) st = (p', st', log) ->
+  (forall o, In o ops -> exists res, p_get p' (op_cid o) = Some (TDone res)) ->
+  forall e, In e log -> payload_okb cf rq e = true.
+Proof.
+  intros R ND P Done e He.
+  destruct (prun_log_cids _ _ _ _ _ _ _ _ P e He) as [ts Hts].
+  destruct (p_get_pool_inv _ _ _ Hts) as (o & Ho & Hc).
+  destruct (Done o Ho) as [res Hres].
+  destruct (step cur_flags cf rq st o) as [[st1 es1] res1] eqn:S.
+  destruct (independence_l _ _ _ _ _ _ _ _ _ _ _ _ _ P (p_get_pool_of _ ND _ Ho) Hres S) as (_ & F & _).
+  pose proof (run_inv cf rq h init st outs (inv_init cf rq) R) as [I _].
+  destruct (step_inv cf rq _ _ _ _ _ I S) as [_ Ok].
+  apply Ok. rewrite <- F. apply filter_In. split; [assumption|]. unfold for_cid. rewrite Hc. apply str_eqb_refl.
+Qed.
